@@ -30,7 +30,7 @@ from ..common import EPS, LINKAGES, shard_count
 
 META = {
     'refill': True,      # cases presented in a reused buffer are followed by a refill of that buffer (runner)
-    'rule': ('cases = x layouts (integer gaps 1..8; the same with the range forced to a power of two; long '
+    'rule': ('cases = one long input per shard 0-3 (16500..40000 points, large gaps on / next to multiples of 4096) + x layouts (integer gaps 1..8; the same with the range forced to a power of two; long '
              'unit/near-unit gap runs; dyadic 1/4-grid gaps; random float gaps; each with a random integer or '
              'float offset) x {C,F,view,int64} layouts x 4 linkages x 7 thresholds drawn from {2^-k}, realised '
              'ratios fl(span/length) (exact ties), realised centroid ratios of 2- and 4-member runs, '
